@@ -22,7 +22,8 @@ Names == <<"list", "vector", "cons", "concat", "vec", "nth", "first", "rest", "c
 PoolText == <<"[1 2 3]", "{:a 1}", "1", ":a", "nil", "(1 2 3)", "0", "[:a]", "#{:a \"b\"}", "2", "inc", "{:a {:b 1}}",
               "()", "[]", "{}", "#{}", "(1)", "[1]", "{\"a\" 1 :b nil}", "-1", "5", "\"s\"", "\"\"", "q",
               "true", "false", "[:a :b]", "\"a\"", ":b", "[0]", "{:b :a}", "(:a 1)", "identity",
-              "{:a 1 :b 2}", "{:a :b :b :a}", "{:a :b :b :c}", "[1 [2 3]]", "(fn [& r] r)">>
+              "{:a 1 :b 2}", "{:a :b :b :a}", "{:a :b :b :c}", "[1 [2 3]]", "(fn [& r] r)",
+              "\"añ日\"">>
 FnRefs == {"inc", "identity"}
 \* a function FORM is passed unquoted (it evaluates to a closure with a rest parameter)
 FnForms == {"(fn [& r] r)"}
